@@ -38,6 +38,7 @@ import (
 
 	"github.com/hashicorp/go-hclog"
 
+	"github.com/hashicorp/consul/acl"
 	"github.com/hashicorp/consul/agent/consul/state"
 	"github.com/hashicorp/consul/agent/consul/stream"
 	"github.com/hashicorp/consul/agent/structs"
@@ -69,7 +70,8 @@ type verifC11Act struct {
 	Sub   int        `json:"sub,omitempty"`
 	Q     *verifC11Q `json:"q,omitempty"`
 	Token string     `json:"token,omitempty"`
-	ACL   string     `json:"acl,omitempty"` // token:TA | token-del:TA | policy:P1 | policy:P2 | role:R1
+	Authz string     `json:"authz,omitempty"` // sub: what the subscriber's token may read (verifC11Authz); "" = everything
+	ACL   string     `json:"acl,omitempty"`   // token:TA | token-del:TA | policy:P1 | policy:P2 | role:R1
 	Idx   uint64     `json:"idx,omitempty"`
 	N     int        `json:"n,omitempty"` // drain: batches; consume: deliveries; sleep: seconds; restore: 1 = publish every queued batch first
 }
@@ -79,7 +81,7 @@ func (a verifC11Act) String() string {
 	case "commit":
 		return fmt.Sprintf("commit@%d %s", a.Op.Idx, a.Op.Desc)
 	case "sub":
-		return fmt.Sprintf("sub#%d %s token=%s", a.Sub, a.Q.id(), a.Token)
+		return fmt.Sprintf("sub#%d %s token=%s authz=%s", a.Sub, a.Q.id(), a.Token, a.Authz)
 	case "resume", "detach", "bounce":
 		return fmt.Sprintf("%s#%d", a.A, a.Sub)
 	case "consume":
@@ -113,6 +115,87 @@ func verifC11Secret(name string) string {
 	return "" // anonymous
 }
 
+// ---- what a subscriber may read. The real consumers (grpc-internal/services/subscribe, submatview's local
+// materializer) resolve the token to an authorizer and drop every event whose Payload.HasReadPermission(authz) is
+// false before handing it on; the direct read endpoints filter their result entry by entry with the same authorizer
+// (CheckServiceNode.CanRead = node:read AND service:read; config entries = service:read / intention:read of the
+// entry's name; service list = service:read of the name). Authorizers are built from real policy sources.
+
+var verifC11AuthzRules = map[string]string{
+	"svc:web+api":   `node_prefix "" { policy = "read" } service "web" { policy = "read" } service "api" { policy = "read" } service "web-proxy" { policy = "read" }`,
+	"svc:db+gw":     `node_prefix "" { policy = "read" } service "db" { policy = "read" } service "term-gw" { policy = "read" } service "ingress-gw" { policy = "read" } service "sidecar" { policy = "read" }`,
+	"node:n1":       `service_prefix "" { policy = "read" } node "n1" { policy = "read" }`,
+	"node:n2+n3":    `service_prefix "" { policy = "read" } node "n2" { policy = "read" } node "n3" { policy = "read" }`,
+	"web@n1+n3":     `service "web" { policy = "read" } service "api" { policy = "write" } node "n1" { policy = "read" } node "n3" { policy = "read" }`,
+	"svcprefix:web": `node_prefix "n" { policy = "read" } service_prefix "web" { policy = "read" }`,
+}
+
+var verifC11AuthzNames = []string{"svc:web+api", "svc:db+gw", "node:n1", "node:n2+n3", "web@n1+n3", "svcprefix:web"}
+
+var verifC11AuthzCache = map[string]acl.Authorizer{}
+
+func verifC11Authz(name string) acl.Authorizer {
+	switch name {
+	case "", "all":
+		return acl.ManageAll()
+	case "none":
+		return acl.DenyAll()
+	}
+	if a, ok := verifC11AuthzCache[name]; ok {
+		return a
+	}
+	rules, ok := verifC11AuthzRules[name]
+	if !ok {
+		panic("verif C11: unknown authorizer " + name)
+	}
+	pol, err := acl.NewPolicyFromSource(rules, nil, nil)
+	if err != nil {
+		panic(err)
+	}
+	a, err := acl.NewPolicyAuthorizerWithDefaults(acl.DenyAll(), []*acl.Policy{pol}, nil)
+	if err != nil {
+		panic(err)
+	}
+	verifC11AuthzCache[name] = a
+	return a
+}
+
+// verifC11Visible filters canonical result lines of q entry by entry for the authorizer, as the RPC endpoints do.
+func verifC11Visible(q verifC11Q, authz acl.Authorizer, items []string) []string {
+	var out []string
+	for _, line := range items {
+		ok := false
+		switch {
+		case q.isHealth():
+			_, js, _ := strings.Cut(line, " => ")
+			var v struct {
+				Node    struct{ Node string }
+				Service struct{ Service, PeerName string }
+			}
+			if err := json.Unmarshal([]byte(js), &v); err != nil {
+				panic(err)
+			}
+			// CheckServiceNode.CanRead: the context carries the peer the instance was imported from
+			ctx := &acl.AuthorizerContext{Peer: v.Service.PeerName}
+			ok = authz.NodeRead(v.Node.Node, ctx) == acl.Allow && authz.ServiceRead(v.Service.Service, ctx) == acl.Allow
+		case q.isServiceList():
+			ok = authz.ServiceRead(line, nil) == acl.Allow
+		case q.Topic == "ServiceIntentions":
+			kn, _, _ := strings.Cut(line, " => ")
+			_, name, _ := strings.Cut(kn, "/")
+			ok = authz.IntentionRead(name, nil) == acl.Allow
+		default:
+			kn, _, _ := strings.Cut(line, " => ")
+			_, name, _ := strings.Cut(kn, "/")
+			ok = authz.ServiceRead(name, nil) == acl.Allow
+		}
+		if ok {
+			out = append(out, line)
+		}
+	}
+	return out
+}
+
 // ---- versions of the store, the model of the publish queue, subscribers
 
 type verifC11Version struct {
@@ -137,12 +220,14 @@ type verifC11Cand struct {
 }
 
 type verifC11Sub struct {
-	id    int
-	q     verifC11Q
-	token string
-	sub   *stream.Subscription
-	view  submatview.View
-	open  bool // false = detached (the client keeps view and index, as RPCMaterializer does on a transport error)
+	id        int
+	q         verifC11Q
+	token     string
+	authzName string
+	authz     acl.Authorizer
+	sub       *stream.Subscription
+	view      submatview.View
+	open      bool // false = detached (the client keeps view and index, as RPCMaterializer does on a transport error)
 
 	// handler state (mirror of submatview/handler.go)
 	awaitFirst bool // resumed: the first event may be NewSnapshotToFollow
@@ -197,6 +282,7 @@ type verifC11World struct {
 	tokLive    map[string]bool
 	taint      map[string]bool // service names that ever had a non-typical kind-service-names row
 	pubErr     string
+	batches    map[*stream.Event]*verifC11Shared // shared buffer items seen so far, by the address of their first event
 	deliveries int
 	closedSubs int
 }
@@ -247,6 +333,7 @@ func verifC11NewWorld(f verifkit.F, c *verifkit.Case) *verifC11World {
 		hint:            map[string]*verifC11Cand{},
 		tokLive:         map[string]bool{},
 		taint:           map[string]bool{},
+		batches:         map[*stream.Event]*verifC11Shared{},
 		restoredOf:      map[int]*verifC11Version{},
 		nextSub:         1,
 	}
@@ -385,10 +472,10 @@ func (w *verifC11World) step(a *verifC11Act) {
 			w.drainOne()
 		}
 	case "sub":
-		w.subscribe(a.Sub, *a.Q, a.Token, nil)
+		w.subscribe(a.Sub, *a.Q, a.Token, a.Authz, nil)
 	case "resume":
 		if s := w.subs[a.Sub]; s != nil && !s.open {
-			w.subscribe(a.Sub, s.q, s.token, s)
+			w.subscribe(a.Sub, s.q, s.token, s.authzName, s)
 		}
 	case "consume":
 		if s := w.subs[a.Sub]; s != nil && s.open {
@@ -404,7 +491,7 @@ func (w *verifC11World) step(a *verifC11Act) {
 			w.consume(s, 1<<20)
 			if s2 := w.subs[a.Sub]; s2 == s && s.open && s.hasView && !s.inSnapshot {
 				w.detach(s)
-				w.subscribe(a.Sub, s.q, s.token, s)
+				w.subscribe(a.Sub, s.q, s.token, s.authzName, s)
 			}
 		}
 	case "snap":
@@ -494,7 +581,7 @@ func (w *verifC11World) drainOne() {
 	}
 }
 
-func (w *verifC11World) subscribe(id int, q verifC11Q, token string, old *verifC11Sub) {
+func (w *verifC11World) subscribe(id int, q verifC11Q, token, authz string, old *verifC11Sub) {
 	var index uint64
 	s := old
 	if s == nil {
@@ -502,7 +589,7 @@ func (w *verifC11World) subscribe(id int, q verifC11Q, token string, old *verifC
 		if err != nil {
 			w.f.Fatalf("verif C11: %v", err)
 		}
-		s = &verifC11Sub{id: id, q: q, token: token, view: view, inSnapshot: true}
+		s = &verifC11Sub{id: id, q: q, token: token, authzName: authz, authz: verifC11Authz(authz), view: view, inSnapshot: true}
 		w.subs[id] = s
 		w.order = append(w.order, id)
 		if id >= w.nextSub {
@@ -582,6 +669,14 @@ func (w *verifC11World) subscribe(id int, q verifC11Q, token string, old *verifC
 	if !s.resumed {
 		w.c.Label("mode=fresh")
 	}
+	switch s.authzName {
+	case "", "all":
+		w.c.Label("authz=all")
+	case "none":
+		w.c.Label("authz=none")
+	default:
+		w.c.Label("authz=restricted")
+	}
 	s.eligible = s.pendingSub >= 1
 }
 
@@ -657,6 +752,14 @@ func (w *verifC11World) consume(s *verifC11Sub, n int) {
 			}
 			return
 		}
+		if !w.sharedBatchIntact(s, ev) {
+			return
+		}
+		// filterByAuth, exactly as Server.Subscribe and LocalMaterializer.subscribeOnce do it
+		if !ev.Payload.HasReadPermission(s.authz) {
+			w.c.Label("event-denied")
+			continue
+		}
 		delivered, ok := w.deliver(s, ev)
 		if !ok {
 			return // s was dropped behind a tolerated finding
@@ -696,6 +799,64 @@ func verifC11DescribeEvent(e *pbsubscribe.Event) string {
 		}
 	}
 	return fmt.Sprintf("@%d {%s}", e.Index, strings.Join(parts, "; "))
+}
+
+// verifC11Shared remembers what a multi-event buffer item looked like when it was first returned by Next and who
+// read it. Subscription.Next wraps bufferItem.Events of the SHARED topic/snapshot buffer in a PayloadEvents without
+// copying; event.go documents that subscribers must not mutate it, and HasReadPermission must filter into a copy.
+type verifC11Shared struct {
+	print   string
+	partial bool // a restricted subscriber was denied an event that precedes an allowed one
+	byAuthz string
+	bySub   int
+}
+
+func verifC11BatchPrint(items []stream.Event) string {
+	var b strings.Builder
+	for _, it := range items {
+		fmt.Fprintf(&b, "%s;", verifC11DescribeEvent(it.Payload.ToSubscriptionEvent(it.Index)))
+	}
+	return b.String()
+}
+
+// sharedBatchIntact checks, BEFORE this subscriber's own filter runs, that the batch is still what the first reader
+// saw (O6), and records the shape "restricted reader first, then a reader that may see more".
+func (w *verifC11World) sharedBatchIntact(s *verifC11Sub, ev stream.Event) bool {
+	pe, ok := ev.Payload.(*stream.PayloadEvents)
+	if !ok || len(pe.Items) < 2 {
+		return true
+	}
+	key := &pe.Items[0]
+	print := verifC11BatchPrint(pe.Items)
+	sh := w.batches[key]
+	if sh == nil {
+		sh = &verifC11Shared{print: print, byAuthz: s.authzName, bySub: s.id}
+		w.batches[key] = sh
+		denied, partial, allowed := false, false, false
+		for _, it := range pe.Items {
+			if it.Payload.HasReadPermission(s.authz) {
+				allowed = true
+				if denied {
+					partial = true
+				}
+			} else {
+				denied = true
+			}
+		}
+		sh.partial = partial && allowed
+		if sh.partial {
+			w.c.Label("batch-partially-denied-with-denied-event-first")
+		}
+		return true
+	}
+	if sh.partial && sh.bySub != s.id && sh.byAuthz != s.authzName {
+		w.c.Label("shared-batch-consumed-by-restricted-then-privileged")
+	}
+	if sh.print != print {
+		return w.tolerate(s, "C11/shared-batch-mutated-by-filter", "sub#%d %s (authz %q): the buffer item at index %d is shared with sub#%d (authz %q), which read it first; since then its events changed\n  first read: %s\n  now       : %s",
+			s.id, s.q.id(), s.authzName, ev.Index, sh.bySub, sh.byAuthz, sh.print, print)
+	}
+	return true
 }
 
 func verifC11EventsFromEvent(e *pbsubscribe.Event) []*pbsubscribe.Event {
@@ -775,6 +936,26 @@ func verifC11Short(s string) string {
 		return s[:700] + "…"
 	}
 	return s
+}
+
+// expected is the direct query of s's (topic, subject) as recorded for version ver, filtered entry by entry for s's
+// authorizer as the read endpoints filter their results.
+func (w *verifC11World) expected(s *verifC11Sub, ver *verifC11Version) verifC11QRes {
+	r := ver.res[s.q.id()]
+	if s.restricted() {
+		r.Items = verifC11Visible(s.q, s.authz, r.Items)
+	}
+	return r
+}
+
+func (s *verifC11Sub) restricted() bool { return s.authzName != "" && s.authzName != "all" }
+
+// mismatchKey: a difference seen by a subscriber with a restricted token is reported under its own key.
+func (s *verifC11Sub) mismatchKey(base string) string {
+	if s.restricted() {
+		return "C11/view-differs-from-filtered-query/" + s.q.Topic
+	}
+	return base
 }
 
 // sameItems compares view and query; for the ServiceList topic of an excused subscriber names in the taint set
@@ -979,7 +1160,7 @@ func (w *verifC11World) onSnapshot(s *verifC11Sub, idx uint64) bool {
 	s.matched = nil
 	contentOnly := false
 	for _, cand := range s.cands {
-		exp := cand.ver.res[s.q.id()]
+		exp := w.expected(s, cand.ver)
 		if !w.sameItems(s, got, exp.Items) {
 			continue
 		}
@@ -996,14 +1177,14 @@ func (w *verifC11World) onSnapshot(s *verifC11Sub, idx uint64) bool {
 		}
 	}
 	if len(s.matched) == 0 {
-		exp := s.cands[0].ver.res[s.q.id()]
-		key := "C11/snapshot-differs-from-query/topic=" + s.q.Topic
+		exp := w.expected(s, s.cands[0].ver)
+		key := s.mismatchKey("C11/snapshot-differs-from-query/topic=" + s.q.Topic)
 		switch {
 		case contentOnly:
 			key = "C11/snapshot-index-differs-from-query/topic=" + s.q.Topic
 		default:
 			for _, cand := range s.cands {
-				if w.kindsOnly(s, got, cand.ver.res[s.q.id()].Items) {
+				if w.kindsOnly(s, got, w.expected(s, cand.ver).Items) {
 					key = verifC11KeyKinds
 				}
 			}
@@ -1098,15 +1279,15 @@ func (w *verifC11World) onEvent(s *verifC11Sub, i uint64) bool {
 	if i < s.lastIdx {
 		key := w.classify(s, i, ver, "C11/index-regress")
 		return w.tolerate(s, key, "sub#%d %s: event with index %d delivered after index %d (batches unpublished when its snapshot was built: %v); view vs query@%d:%s",
-			s.id, s.q.id(), i, s.lastIdx, verifC11QueuedOf(s), i, verifC11Diff(got, ver.res[s.q.id()].Items))
+			s.id, s.q.id(), i, s.lastIdx, verifC11QueuedOf(s), i, verifC11Diff(got, w.expected(s, ver).Items))
 	}
 	s.lastIdx = i
 	if ver.multi {
 		return true
 	}
-	exp := ver.res[s.q.id()]
+	exp := w.expected(s, ver)
 	if !w.sameItems(s, got, exp.Items) {
-		fallback := "C11/view-differs-from-query-at-index/topic=" + s.q.Topic
+		fallback := s.mismatchKey("C11/view-differs-from-query-at-index/topic=" + s.q.Topic)
 		key := w.explained(s, got, exp.Items, ver, fallback)
 		if key == fallback {
 			key = w.classify(s, i, ver, fallback)
@@ -1143,11 +1324,11 @@ func (w *verifC11World) quiescent(s *verifC11Sub) {
 	if err != nil {
 		w.f.Fatalf("verif C11: %v", err)
 	}
-	exp := w.cur.res[s.q.id()]
+	exp := w.expected(s, w.cur)
 	if w.sameItems(s, got, exp.Items) {
 		return
 	}
-	key := "C11/view-differs-after-full-drain/topic=" + s.q.Topic
+	key := s.mismatchKey("C11/view-differs-after-full-drain/topic=" + s.q.Topic)
 	switch {
 	case s.baseEpoch < s.subEpoch && s.resumed:
 		key = verifC11KeyResumeRest
